@@ -13,7 +13,8 @@
 // wkbeq:  1 when AsBinary of G and H are equal after writing -0 as +0
 // expect: by construction: P1/P0 (no options must be true/false), I1/I0 (IgnoreOrder), T1 (true under
 //         every listed tolerance), T0 (false under
-//         every listed tolerance, with and without IgnoreOrder), ? unknown
+//         every listed tolerance, with and without IgnoreOrder), U0 (false under every listed
+//         tolerance without IgnoreOrder), ? unknown
 package main
 
 import (
@@ -1040,6 +1041,10 @@ func main() {
 				emit(id, "tolerance_matching", g, h, []float64{1, 0.5, 3}, "?")
 				break
 			}
+			if r.Chance(1, 2) {
+				genTolScaled(r, ct, id, emit)
+				break
+			}
 			g := genMoves(r, ct, 1, 2, 3)
 			// stay on the dyadic lattice (genMoves plants one-ulp near-duplicates)
 			mapOrds(g, func(f float64) float64 { return math.Round(f*8) / 8 })
@@ -1126,6 +1131,230 @@ func main() {
 		"lines_total": ringLines, "lines_that_are_rings": ringsSeen, "magnitudes": magnitudes}
 	js, _ := json.Marshal(stats)
 	fmt.Fprintf(w, "#GEN\t%s\n", js)
+}
+
+// tolScaleExps: the exponents k of the exact rescaling 2^k applied to coordinates and tolerances of
+// the tolerance_scaled class. Beyond |k| ~ 512 the squares of differences / of the tolerance are
+// not representable (overflow to +Inf, underflow to 0) although every distance and tolerance is.
+var tolScaleExps = []int{0, 0, 100, -100, 300, -300, 500, -500, 512, -512, 540, -540, 600, -600, 900, -900, 1000, -1060}
+
+// genTolScaled: tolerance pairs whose exact answer is decided on an integer pre-image, rescaled
+// by an exact power of two 2^k. G lives on the lattice of multiples of 1/8; every vertex of H is
+// the vertex of G displaced by (a,b)*u with integers a, b and u = 1/8 (coarse) or 2^-20 (fine); the
+// tolerance is T*u with T = 5j (coarse) or 5j*2^17 (fine), the same real number 5j/8. A vertex is
+// within the tolerance exactly when a^2+b^2 <= T^2 (int64 arithmetic, no rounding anywhere; the
+// same holds of the float64 operations of a comparison that does not leave the exponent range).
+// Displacements: none, exactly on the threshold ((3,4,5) triples and axis-parallel), one unit
+// inside, one unit outside (distance/tolerance = 1 -+ 2^-20/ (5j/8) on the fine lattice).
+// Modes: every vertex within (T1, tolerances tol, 2 tol, -tol, tol*2^m); one vertex outside (U0:
+// false without IgnoreOrder under tol, tol/2, -tol, tol*2^-m); a Z or M value changed by one and
+// XY within (U0); mixed (no expectation: judged by the exact model). m up to 400, so that the
+// tolerance and the distances also sit at very different magnitudes.
+func genTolScaled(r *lib.Rng, ct geom.CoordinatesType, id string, emit func(id, class string, gn, hn *N, tols []float64, expect string)) {
+	k := tolScaleExps[r.Intn(len(tolScaleExps))]
+	var g *N
+	for try := 0; ; try++ {
+		if try < 6 {
+			g = genMoves(r, ct, 1, 2, 3)
+		} else {
+			g = genRing(r, ct, 1, true)
+		}
+		if len(slots(g)) > 0 {
+			break
+		}
+	}
+	mapOrds(g, func(f float64) float64 { return math.Round(f*8) / 8 })
+	h := clone(g)
+	fine := k > -1000 && r.Bool()
+	j := int64(r.Range(1, 6))
+	unit, T := 0.125, 5*j
+	if fine {
+		unit, T = 0x1p-20, 5*j<<17
+	}
+	p3, p4 := 3*T/5, 4*T/5
+	sgn := func() int64 { return int64(2*r.Intn(2) - 1) }
+	onThr := func() (int64, int64) {
+		sa, sb := sgn(), sgn()
+		switch r.Intn(4) {
+		case 0:
+			return sa * p3, sb * p4
+		case 1:
+			return sa * p4, sb * p3
+		case 2:
+			return sa * T, 0
+		}
+		return 0, sb * T
+	}
+	inside := func() (int64, int64) {
+		a, b := onThr()
+		// one unit towards the origin in a non-zero component
+		if a != 0 && (b == 0 || r.Bool()) {
+			a -= a / abs64(a)
+		} else {
+			b -= b / abs64(b)
+		}
+		return a, b
+	}
+	outside := func() (int64, int64) {
+		a, b := onThr()
+		switch {
+		case a == 0:
+			b += b / abs64(b)
+		case b == 0 || r.Bool():
+			a += a / abs64(a)
+		default:
+			b += b / abs64(b)
+		}
+		return a, b
+	}
+	type vref struct {
+		n *N
+		i int
+	}
+	var vs []vref
+	walk(h, func(q *N) {
+		for vi := range q.C {
+			vs = append(vs, vref{q, vi})
+		}
+	})
+	mode := r.Intn(5)
+	if mode == 3 && ct == geom.DimXY {
+		mode = r.Intn(3)
+	}
+	nIn, nOut, nOn := 0, 0, 0
+	disp := func(v vref, a, b int64) {
+		v.n.C[v.i][0] += float64(a) * unit
+		v.n.C[v.i][1] += float64(b) * unit
+		switch d := a*a + b*b; {
+		case d > T*T:
+			nOut++
+		case d == T*T:
+			nOn++
+		default:
+			nIn++
+		}
+	}
+	within := func(v vref) {
+		switch r.Intn(4) {
+		case 0:
+			disp(v, 0, 0)
+		case 1:
+			a, b := inside()
+			disp(v, a, b)
+		default:
+			a, b := onThr()
+			disp(v, a, b)
+		}
+	}
+	expect := "?"
+	switch mode {
+	case 0, 4: // every vertex within
+		for _, v := range vs {
+			within(v)
+		}
+		expect = "T1"
+	case 1: // exactly one vertex outside (by one unit, sometimes far)
+		bad := r.Intn(len(vs))
+		for vi, v := range vs {
+			if vi == bad {
+				a, b := outside()
+				if r.Chance(1, 5) {
+					a, b = 3*a, -2*b
+					if a == 0 && b == 0 {
+						a = 2 * T
+					}
+				}
+				disp(v, a, b)
+			} else {
+				within(v)
+			}
+		}
+		expect = "U0"
+	case 3: // XY within everywhere, one Z or M value differs: the tolerance is about X and Y only
+		for _, v := range vs {
+			within(v)
+		}
+		var zm []slot
+		for _, sl := range slots(h) {
+			if sl.j >= 2 {
+				zm = append(zm, sl)
+			}
+		}
+		t := zm[r.Intn(len(zm))]
+		t.n.C[t.i][t.j] += float64(2*r.Intn(2) - 1)
+		expect = "U0"
+	default: // mixed
+		for _, v := range vs {
+			switch r.Intn(5) {
+			case 0:
+				if r.Chance(1, 2) {
+					a, b := outside()
+					disp(v, a, b)
+				} else {
+					within(v)
+				}
+			default:
+				within(v)
+			}
+		}
+		if r.Chance(1, 3) {
+			applyMoves(r, h, 1)
+		}
+	}
+	// exact rescaling of X and Y (Z and M stay)
+	sc := math.Ldexp(1, k)
+	for _, root := range []*N{g, h} {
+		walk(root, func(q *N) {
+			for vi := range q.C {
+				q.C[vi][0] *= sc
+				q.C[vi][1] *= sc
+			}
+		})
+	}
+	tol := float64(T) * unit * sc
+	// tolerances at a different magnitude than the distances (kept finite and non-zero)
+	m := r.Range(60, 400)
+	up, down := m, m
+	if k+up > 1015 {
+		up = 1015 - k
+	}
+	if k-down < -1068 {
+		down = k + 1068
+	}
+	var tols []float64
+	switch expect {
+	case "T1":
+		tols = []float64{tol, 2 * tol, -tol, math.Ldexp(tol, up)}
+	case "U0":
+		tols = []float64{tol, tol / 2, -tol, math.Ldexp(tol, -down)}
+		if mode == 3 {
+			tols = []float64{tol, 2 * tol, math.Ldexp(tol, up), math.Ldexp(tol, -down)}
+		}
+	default:
+		tols = []float64{tol, tol / 2, 2 * tol, math.Ldexp(tol, -down), math.Ldexp(tol, up)}
+	}
+	if r.Bool() {
+		g, h = h, g
+	}
+	class := "tolerance_scaled"
+	switch {
+	case k >= 512:
+		class = "tolerance_scaled_huge"
+	case k <= -512:
+		class = "tolerance_scaled_tiny"
+	}
+	// the expectation is a statement about the integer pre-image
+	if expect == "T1" && nOut != 0 || mode == 1 && nOut != 1 || mode == 3 && nOut != 0 || nIn+nOn+nOut != len(vs) {
+		panic("genTolScaled: displacement census does not match the expectation")
+	}
+	emit(id, class, g, h, tols[:r.Range(2, len(tols))], expect)
+}
+
+func abs64(x int64) int64 {
+	if x < 0 {
+		return -x
+	}
+	return x
 }
 
 func indexOf(s []slot, t slot) int {
